@@ -593,3 +593,39 @@ Fixpoint run_with (P : cfg -> state -> bool) (c : cfg) (s : state) (ops : list m
 Definition step := step_with parses.
 Definition run := run_with parses.
 Definition trace (c : cfg) (ops : list msg) : list event := snd (run c init ops).
+
+(* ------------------------------------------------------------------------- *)
+(** * E. which settings a connected session uses across a RELOAD                *)
+
+(** QueryRouter.pool_settings of a session are the registered pool's settings as of the
+    session's last CHECKOUT (client.rs: [pool = self.get_pool(); query_router.
+    update_pool_settings(&pool.settings)] sits between the outer match and [pool.get]).
+    A statement is therefore judged by the plugins section of the file that was in force at
+    the session's previous checkout, with one exception: a simple Query that passes the
+    outer loop is judged again by the transaction loop, after the refresh.
+    [vold] / [vnew]: the statement's verdict under the settings the router holds / under
+    the registered (reloaded) ones.  [fresh]: the router holds the registered settings. *)
+Inductive rop := RReload | RQ (vold vnew : verdict) | RBatch (vold vnew : verdict).
+Inductive rout := ONone | OFwd | ODeny (t : nat) | OIcpt (t : nat).
+Definition act (v : verdict) : rout :=
+  match v with Allow => OFwd | Deny t => ODeny t | Intercept t => OIcpt t end.
+
+Definition rstep (fresh : bool) (o : rop) : bool * rout :=
+  match o with
+  | RReload => (false, ONone)
+  | RQ vold vnew =>
+      if fresh then (true, act vnew)
+      else match vold with
+           | Allow => (true, act vnew)          (* checkout: refresh, then the transaction loop judges again *)
+           | _ => (false, act vold)             (* answered before any checkout: nothing is refreshed *)
+           end
+  | RBatch vold vnew =>
+      let v := if fresh then vnew else vold in  (* the Parse is judged when it arrives *)
+      (match v with Allow => true | _ => fresh end, act v)
+  end.
+
+Fixpoint rrun (fresh : bool) (ops : list rop) : list rout :=
+  match ops with
+  | [] => []
+  | o :: r => let '(f, out) := rstep fresh o in out :: rrun f r
+  end.
